@@ -66,6 +66,17 @@ Proof.
   destruct (C06_refines_atomic_store _ _ _ _ _ H Hrun) as (sp & Hs). eapply hist_wret; eauto.
 Qed.
 
+(* A write that returns an error (the log refused the batch) was never published: the database is
+   unchanged by it, so no reader ever sees any part of it. *)
+Theorem C06_failed_write_has_no_effect : forall s0 m0 t0 pre t st, m0 < s0 ->
+  run (init s0 m0 t0) (pre ++ [LWRetF t]) = Some st ->
+  (exists pre1 pre2 b0, pre = pre1 ++ LInvW t b0 :: pre2 /\ no_inv t pre2 /\ (forall s, ~ In (LWPublish t s) pre2)) /\
+  dbof (pre ++ [LWRetF t]) = dbof pre.
+Proof.
+  intros s0 m0 t0 pre t st H Hrun.
+  destruct (C06_refines_atomic_store _ _ _ _ _ H Hrun) as (sp & Hs). eapply hist_wretf; eauto.
+Qed.
+
 (* "A read never returns a value older than one whose write had completed before the read began":
    if batch (s, b) is in the database when the read is invoked (dbof pre1 — by the theorem above
    this holds for every write that has returned) and b writes key k, the read returns the value of
